@@ -15,6 +15,7 @@ package raftsim
 import (
 	"fmt"
 	"hash/fnv"
+	"runtime/debug"
 
 	"github.com/youzan/ZanRedisDB/raft"
 	pb "github.com/youzan/ZanRedisDB/raft/raftpb"
@@ -134,6 +135,10 @@ type quietLogger struct{ simLogger }
 func init() {
 	// package-level logger of raft (used by the storage implementations)
 	raft.SetLogger(&quietLogger{})
+	// cases allocate node objects (hundreds of KB of queues each) at a high rate while
+	// the live heap stays small: the default GC pacing would collect every few cases
+	debug.SetGCPercent(600)
+	debug.SetMemoryLimit(400 << 20)
 }
 
 // hasher accumulates the trace hash of a case.
